@@ -27,6 +27,7 @@ RULE = ("crash-point enumeration over the lifecycle of instrumented sources (asy
 RULE += (' Also: adapter sources forwarding aclose through __getattr__, future-like sources, sequences of uses over a fresh adapter class per case (instances with and without aclose), groupby closed after a failing source/key and after a cancelled advance, functions/keys that are not callable at all.')
 RULE += (' Also: class sources have value semantics (all equal, unhashable); async iterables that are not iterators.')
 RULE += (' Also: a source whose aclose appears only once iteration has begun; tee children closed in reverse order.')
+RULE += (' Also: tee sources failing once at their k-th use (the fetching child ends; the last child to go closes the source).')
 ASSUMPTIONS = ["sources' own aclose never suspends or fails", "sync iterables have nothing to release",
                "a generator-based tool closed before its first step runs no code (language semantics): sources need "
                "not be closed then, except for handles that advertise eager closing (chain, tee, groupby)"]
@@ -73,7 +74,11 @@ def cases(tier, seed, shard, nshards):
                            else ["close_handle"])
             yield {"kind": "tee", "n": nchild, "len": rng.randint(0, maxlen), "ops": ops,
                    "flav": rng.choice(["async_gen", "async_class", "async_class_proxy", "async_class_lateclose"]),
-                   "final": rng.choice(["close_all", "close_all_reversed", "close_handle", "none"])}
+                   "final": rng.choice(["close_all", "close_all_reversed", "close_handle", "none"]),
+                   # the source fails once, at its k-th use: the child that was fetching ends with that failure (it is
+                   # done), the others carry on; whoever is the last one to go closes the source
+                   "fault": [rng.randint(1, maxlen + 1), rng.choice(["Injected", "InjectedBase", "RuntimeError", "KeyError"])]
+                   if rng.random() < 0.35 else None}
         elif name == "groupby":
             ks = gen.keys_seq(rng, maxlen + 2, 2)
             ops = [rng.choice(["adv", "grp", "grp", "oldgrp"]) for _ in range(rng.randint(0, 6))]
@@ -250,17 +255,20 @@ def run_agg(case, stats):
 
 def run_tee(case, stats):
     CTX.reset()
-    st = SrcState(0, [Item(i, (0, i)) for i in range(case["len"])], Plan(), log=False)
+    fault = case.get("fault")
+    boom = FAULT_TYPES[fault[1]]("source failed") if fault else None
+    st = SrcState(0, [Item(i, (0, i)) for i in range(case["len"])], Plan(0, fault[0], boom) if fault else Plan(), log=False)
     src = make_source(st, case["flav"])
     n = case["n"]
     viols = []
     state = {"done": [False] * n, "advanced": [False] * n}
-    head = f"tee n={n} len={case['len']} flav={case['flav']} ops={case['ops']} final={case['final']}"
+    head = f"tee n={n} len={case['len']} flav={case['flav']} ops={case['ops']} final={case['final']} fault={fault}"
     events = []
 
     def check(where):
         all_done = all(state["done"])
-        if st.released() and not all_done and not st.ended:
+        # (a generator source that failed has finished by itself: nobody closed it)
+        if st.released() and not all_done and not st.ended and not (st.faulted and st.gen is not None):
             viols.append({"key": "tee/source-closed-before-last-child-done",
                           "msg": f"{head}: source closed after {where} although children {state['done']} not all done"})
         if all_done and not st.released():
@@ -289,6 +297,12 @@ def run_tee(case, stats):
                         await children[c].__anext__()
                     except StopAsyncIteration:
                         state["done"][c] = True
+                    except BaseException as exc:  # noqa: BLE001
+                        if exc is not boom:
+                            raise
+                        # the source's failure, handed to the child that was fetching: that child has ended
+                        state["done"][c] = True
+                        stats["tee_children_ended_by_a_source_failure"] += 1
                 elif op[0] == "close":
                     await children[op[1]].aclose()
                     state["done"][op[1]] = True
